@@ -235,8 +235,9 @@ theorem custom_op_inputs_order (arch : Arch) (callee : Nat) (ins : List TRef) :
     (rewriteInputs callee ins).take 4 = [.cmd callee, .flash, .scratch, .fast] ∧
     (rewriteInputs callee ins).drop 4 = ins ∧
     (∀ mt r, getRegion arch mt = some r → (rewriteInputs callee ins)[r + 1]? = holder arch mt) ∧
-    startupOutputs callee [] = [.cmd callee, .flash] := by
-  refine ⟨rfl, rfl, rfl, ?_, by simp [startupOutputs, memOperands]⟩
+    (∀ al, TRef.cmd callee ∈ startupOutputs al callee [] ∧ TRef.flash ∈ startupOutputs al callee []) ∧
+    startupOutputs false callee [] = [.cmd callee, .flash] := by
+  refine ⟨rfl, rfl, rfl, ?_, fun al => by cases al <;> simp [startupOutputs, memOperands], by simp [startupOutputs, memOperands]⟩
   intro mt r h
   cases mt <;> simp only [getRegion, Option.some.injEq] at h <;> try (subst h; rfl)
   · cases h
